@@ -1,6 +1,7 @@
 package main
 
 import (
+	"go/token"
 	"fmt"
 	"go/types"
 	"regexp"
@@ -16,6 +17,7 @@ func runC06(c *Ctx) {
 	c.NotCovered("equality of re-applied state and diffs (run-time notion)", "proof validity after revert / updateElementProof truncation (accumulator algebra, C05)")
 	ge := NewGuardEngine(c.P, c.Depth+4)
 	c06ProofUpdateOrder(c)
+	c06DiffPreserved(c)
 	rb := c.P.Func(CRB)
 	ab := c.P.Func(CAB)
 	if rb == nil || ab == nil {
@@ -264,4 +266,109 @@ func c06ProofUpdateOrder(c *Ctx) {
 		c.Check(ok, "proof-update-order", e.fn, c.P.Pos(fn.Pos()), ifElse(ok, e.why, "order violated: "+ifElse(e.storeFirst, "updateProof runs before the proof is truncated", "the proof is extended before updateProof runs")+", so the updated leaves are looked up under the post-block proof length (wrong or empty group)"))
 	}
 	c.Min("proof-update-order", 2)
+}
+
+// c06DiffPreserved: an element's diff accumulates what the block did to it (Created, then Spent / Revision /
+// Resolution): revert needs all of it. A function that obtains the diff from the recorder (the helper that
+// looks the ID up in ms.elements or appends a zero diff) must therefore update it field by field; replacing
+// the whole struct is only legitimate where the element is being created (the literal sets Created: true).
+func c06DiffPreserved(c *Ctx) {
+	const rule = "diff-preserved"
+	isRecorderCall := func(v ssa.Value, depth int) bool { return false }
+	var rec func(v ssa.Value, depth int) bool
+	rec = func(v ssa.Value, depth int) bool {
+		call, ok := v.(*ssa.Call)
+		if !ok || depth > 2 {
+			return false
+		}
+		f := call.Call.StaticCallee()
+		if f == nil || !c.P.InModule(f) {
+			return false
+		}
+		if isIndexRecorder(f) {
+			return true
+		}
+		// a thin wrapper returning the recorder's result
+		for _, r := range returnsOf(f) {
+			if len(r.Results) == 1 && rec(r.Results[0], depth+1) {
+				return true
+			}
+		}
+		return false
+	}
+	isRecorderCall = rec
+	n := 0
+	for _, fn := range SortedFuncs(c.P.AllFuncs()) {
+		if !c.P.InModule(fn) || fn.Pkg == nil || relPkg(fn.Pkg.Pkg) != "consensus" || fn.Synthetic != "" || isIndexRecorder(fn) {
+			continue
+		}
+		var ptrs []ssa.Value
+		for _, b := range fn.Blocks {
+			for _, in := range b.Instrs {
+				if v, ok := in.(ssa.Value); ok && isRecorderCall(v, 0) {
+					if _, isPtr := v.Type().Underlying().(*types.Pointer); isPtr {
+						ptrs = append(ptrs, v)
+					}
+				}
+			}
+		}
+		if len(ptrs) == 0 {
+			continue
+		}
+		// a function that only forwards the pointer is a wrapper, not a user
+		uses := false
+		bad := ""
+		for _, p := range ptrs {
+			for _, r := range *p.Referrers() {
+				switch x := r.(type) {
+				case *ssa.FieldAddr:
+					uses = true
+				case *ssa.Store:
+					if x.Addr != p {
+						continue
+					}
+					uses = true
+					if !literalSetsCreated(x.Val) {
+						bad = c.P.Pos(x.Pos())
+					}
+				}
+			}
+		}
+		if !uses {
+			continue
+		}
+		n++
+		c.Check(bad == "", rule, FuncName(fn), c.P.Pos(fn.Pos()), ifElse(bad == "", "updates the recorded diff field by field (a whole-struct store only where the element is created)", "replaces the whole recorded diff at "+bad+" with a value that does not carry Created: an element created earlier in this block loses its Created flag (and earlier revisions), so reverting the block restores an element that never existed"))
+	}
+	c.Check(n >= 6, rule, "inventory", "", fmt.Sprintf("%d functions update a diff obtained from the recorder", n))
+}
+
+// literalSetsCreated: v is the value of a local composite literal whose Created field is set to the constant true.
+func literalSetsCreated(v ssa.Value) bool {
+	ld, ok := v.(*ssa.UnOp)
+	if !ok || ld.Op != token.MUL {
+		return false
+	}
+	al, ok := ld.X.(*ssa.Alloc)
+	if !ok || al.Referrers() == nil {
+		return false
+	}
+	st, _ := al.Type().Underlying().(*types.Pointer).Elem().Underlying().(*types.Struct)
+	if st == nil {
+		return false
+	}
+	for _, r := range *al.Referrers() {
+		fa, ok := r.(*ssa.FieldAddr)
+		if !ok || fa.Field >= st.NumFields() || st.Field(fa.Field).Name() != "Created" || fa.Referrers() == nil {
+			continue
+		}
+		for _, rr := range *fa.Referrers() {
+			if s, ok := rr.(*ssa.Store); ok {
+				if k, ok := s.Val.(*ssa.Const); ok && k.Value != nil && k.Value.ExactString() == "true" {
+					return true
+				}
+			}
+		}
+	}
+	return false
 }
